@@ -401,7 +401,7 @@ func vLRUStep2(maxCap, touches int) {
 	vCheckLRU(l, ref, log, "C09 two steps from a touched pre-state")
 }
 
-func H_C09_step2_touched()   { vLRUStep2(2, 2) }
+func H_C09_step2_touched() { vLRUStep2(2, 2) }
 
 // ---- larger capacities: one operation from a full or nearly full cache of a written-out capacity ----
 func vLRUStepAt(c int) {
@@ -419,6 +419,6 @@ func vLRUStepAt(c int) {
 	vCheckLRU(l, ref, log, "C09 larger capacity")
 }
 
-func H_C09_cap8()   { vLRUStepAt(8) }
-func H_C09_cap16()  { vLRUStepAt(16) }
-func H_C09_cap17()  { vLRUStepAt(17) }
+func H_C09_cap8()  { vLRUStepAt(8) }
+func H_C09_cap16() { vLRUStepAt(16) }
+func H_C09_cap17() { vLRUStepAt(17) }
